@@ -352,4 +352,59 @@ theorem member_found_paths {ki : KindInfo} (hk : lookupKind Gen.kinds "paths" = 
   · have hne : tok ≠ "$ref" := by rintro rfl; simp [isExtKey] at hx
     exact lookupTok_of_answer hk hl hne (hcanon_ext hx) c2 (partAnswer_ext hx hl)
 
+
+/-! ### from `norm`: the statements about actual encodings -/
+
+theorem nd_obj_lookup {ms : List (String × Json)} (h : ND (.obj ms)) {tok : String} {v : Json} (hm : (tok, v) ∈ ms) :
+    lookupKey ms tok = some v := by
+  simp only [ND] at h
+  exact lookupKey_of_mem h.1 hm
+
+/-- the kinds whose codec is the generic `ConcatJSON` one and that have a hand-written lookup -/
+def concatLookupKind (ki : KindInfo) : Bool :=
+  !(["schema", "response", "responses", "paths", "securityScheme"].contains ki.kind) &&
+    ki.marshalShape != "reflect" && !ki.lookupChain.isEmpty
+
+theorem normKind_concat {rec : Rec} {k : String} {ki : KindInfo} (hk : lookupKind Gen.kinds k = some ki)
+    (hc : concatLookupKind ki = true) (j : Json) : normKind rec k j = normConcatKind rec ki j := by
+  have hkind : ki.kind = k := by simpa using List.find?_some hk
+  simp only [concatLookupKind, Bool.and_eq_true, Bool.not_eq_true', bne_iff_ne, ne_eq] at hc
+  obtain ⟨⟨h1, h2⟩, _⟩ := hc
+  rw [hkind] at h1
+  simp only [List.contains_cons, List.contains_nil, Bool.or_false, Bool.or_eq_false_iff, beq_eq_false_iff_ne, ne_eq] at h1
+  obtain ⟨a1, a2, a3, a4, a5⟩ := h1
+  have b1 : (k == "schema") = false := by simpa using a1
+  have b2 : (k == "response") = false := by simpa using a2
+  have b3 : (k == "responses") = false := by simpa using a3
+  have b4 : (k == "paths") = false := by simpa using a4
+  have b5 : (k == "securityScheme") = false := by simpa using a5
+  have b6 : (ki.marshalShape == "reflect") = false := by simpa using h2
+  simp [normKind, b1, b2, b3, b4, b5, hk, b6]
+
+/-- **regular kinds, on actual encodings**: every member of what `norm K` returns, other than `$ref`, is found by
+the lookup model with its value -/
+theorem norm_lookup_concat (ok : TablesOK) {k : String} {ki : KindInfo} (hk : lookupKind Gen.kinds k = some ki)
+    (hc : concatLookupKind ki = true) (hcov : structCovered ki = true) (hext : extCovered ki = true)
+    (hkw : keywordsNotNumerals = true) {j₀ : Json} {ms : List (String × Json)} (h : norm k j₀ = .ok (.obj ms))
+    {tok : String} {v : Json} (hm : (tok, v) ∈ ms) (hne : tok ≠ "$ref") : lookupTok k ms tok = some v := by
+  have hnd := norm_nd ok k j₀ _ h
+  have hl := nd_obj_lookup hnd hm
+  unfold norm at h
+  cases hf : fuelFor j₀ with
+  | zero => rw [hf] at h; simp [normF] at h
+  | succ n =>
+    rw [hf] at h
+    have h1 : normConcatKind (normF n) ki j₀ = .ok (.obj ms) := by
+      rw [← normKind_concat hk hc]; simpa [normF] using h
+    obtain ⟨d, hd, hcl⟩ := normConcatKind_claims (normF_nd ok n) ok.tables ki h1 (tok, v) hm
+    exact member_found_regular hk hcov hext hkw hl hne hd hcl
+
+/-- **schema, on actual encodings** -/
+theorem norm_lookup_schema (ok : TablesOK) {ki : KindInfo} (hk : lookupKind Gen.kinds "schema" = some ki)
+    (hchain : ["Extensions", "ExtraProps", "SchemaProps", "SwaggerSchemaProps"].all ki.lookupChain.contains = true)
+    (hkw : keywordsNotNumerals = true) {j₀ : Json} {ms : List (String × Json)} (h : norm "schema" j₀ = .ok (.obj ms))
+    {tok : String} {v : Json} (hm : (tok, v) ∈ ms) (hne : tok ≠ "$ref") (hns : tok ≠ "$schema")
+    (hcanon : ∀ n, atoi tok = some n → itoa n = tok) : lookupTok "schema" ms tok = some v :=
+  member_found_schema hk hchain hkw (nd_obj_lookup (norm_nd ok "schema" j₀ _ h) hm) hne hns hcanon
+
 end SpecModel.Codec
